@@ -6,8 +6,8 @@ def ob(id, entry, mode, cases, expect, bounds, tus=TUS_BOX, **kw):
     d = dict(id=id, harness=tus[0], entry=entry, mode=mode, cases=cases, expect=expect, bounds=bounds, tus=tus, stubs=[], assumes=['finite box corners with lower <= upper'], outside=['parse-time computation of the buffers', 'spherical buffer (1/cos(lat))', 'curved trenches'])
     d.update(kw); return d
 OBLIGATIONS = [
-    ob('C07.box', 'h_c07_box', 'real', [(0,), (1,)], ['a point within the closed box is inside', 'end'], 'BoundingBox<2>, all finite corners/points/tolerances >= 0; Cartesian and spherical wrapper', native=False),
+    ob('C07.box', 'h_c07_box', 'real', [(0,), (1,)], ['a point within the closed box is inside', 'end'], 'BoundingBox<2>, all finite corners/points/tolerances >= 0; Cartesian and spherical wrapper', native=True),
     ob('C07.boxfp', 'h_c07_box_fp', 'fp', [()], ['a point within the closed box is inside (bit precise, default tolerance)', 'end'], 'bit-precise doubles, default tolerance (epsilon), finite corners', time_cap=250),
     ob('C07.alias', 'h_c07_alias', 'fpu', [()], ['spherical box test is the disjunction over the two longitude aliases', 'end'], 'all doubles (products uninterpreted)'),
-    ob('C07.extend', 'h_c07_extend', 'real', [()], ['extend moves both corners outwards by the amount', 'end'], 'all finite corners and amounts', native=False),
+    ob('C07.extend', 'h_c07_extend', 'real', [()], ['extend moves both corners outwards by the amount', 'end'], 'all finite corners and amounts', native=True),
 ] + C06.CUT_OBS
